@@ -5,6 +5,7 @@ use proptest::prelude::*;
 
 pub mod programs;
 pub mod cases;
+pub mod graphs;
 
 /// Boundary words B (DESIGN §4.1).
 pub const BOUNDARY: &[i64] = &[
